@@ -632,6 +632,14 @@ func init() {
 		return &Val{}
 	}
 
+	models["golang.org/x/time/rate.NewLimiter"] = func(u *Unit, st *State, x *ast.CallExpr, _ *Val, fn *types.Func) *Val {
+		u.trusted["model: rate.NewLimiter returns a fresh limiter (token-bucket arithmetic is golang.org/x/time/rate, not modelled)"] = true
+		for _, a := range x.Args {
+			u.eval(st, a)
+		}
+		return &Val{T: u.typeOf(x), S: u.alloc(st)}
+	}
+
 	// ---- context
 	models["(context.Context).Err"] = func(u *Unit, st *State, x *ast.CallExpr, recv *Val, fn *types.Func) *Val {
 		return u.freshVal(st, u.typeOf(x), "ctxerr")
@@ -641,6 +649,9 @@ func init() {
 	xm := "(*github.com/puzpuzpuz/xsync/v4.Map)."
 	models[xm+"Load"] = func(u *Unit, st *State, x *ast.CallExpr, recv *Val, fn *types.Func) *Val {
 		u.trusted["model: xsync.Map is a linearizable map (Load/Store/Delete/LoadOrStore/LoadOrCompute/Range)"] = true
+		if se, ok := ast.Unparen(x.Fun).(*ast.SelectorExpr); ok {
+			u.atomicAccess(st, se.X, "mapop")
+		}
 		kt, vt, _ := xsyncMapTypes(recv.T)
 		k := u.convertForAssign(st, u.eval(st, x.Args[0]), kt)
 		v, ok := u.xmapLoad(st, kt, vt, recv.S, u.scalar(st, k))
@@ -648,6 +659,9 @@ func init() {
 	}
 	models[xm+"Store"] = func(u *Unit, st *State, x *ast.CallExpr, recv *Val, fn *types.Func) *Val {
 		u.trusted["model: xsync.Map is a linearizable map (Load/Store/Delete/LoadOrStore/LoadOrCompute/Range)"] = true
+		if se, ok := ast.Unparen(x.Fun).(*ast.SelectorExpr); ok {
+			u.atomicAccess(st, se.X, "mapop")
+		}
 		kt, vt, _ := xsyncMapTypes(recv.T)
 		k := u.convertForAssign(st, u.eval(st, x.Args[0]), kt)
 		v := u.convertForAssign(st, u.eval(st, x.Args[1]), vt)
@@ -656,6 +670,9 @@ func init() {
 	}
 	models[xm+"Delete"] = func(u *Unit, st *State, x *ast.CallExpr, recv *Val, fn *types.Func) *Val {
 		u.trusted["model: xsync.Map is a linearizable map (Load/Store/Delete/LoadOrStore/LoadOrCompute/Range)"] = true
+		if se, ok := ast.Unparen(x.Fun).(*ast.SelectorExpr); ok {
+			u.atomicAccess(st, se.X, "mapop")
+		}
 		kt, vt, _ := xsyncMapTypes(recv.T)
 		k := u.convertForAssign(st, u.eval(st, x.Args[0]), kt)
 		u.xmapDelete(st, kt, vt, recv.S, u.scalar(st, k))
@@ -663,6 +680,9 @@ func init() {
 	}
 	models[xm+"LoadOrStore"] = func(u *Unit, st *State, x *ast.CallExpr, recv *Val, fn *types.Func) *Val {
 		u.trusted["model: xsync.Map is a linearizable map (Load/Store/Delete/LoadOrStore/LoadOrCompute/Range)"] = true
+		if se, ok := ast.Unparen(x.Fun).(*ast.SelectorExpr); ok {
+			u.atomicAccess(st, se.X, "mapop")
+		}
 		kt, vt, _ := xsyncMapTypes(recv.T)
 		k := u.convertForAssign(st, u.eval(st, x.Args[0]), kt)
 		nv := u.convertForAssign(st, u.eval(st, x.Args[1]), vt)
@@ -676,6 +696,9 @@ func init() {
 	}
 	models[xm+"LoadOrCompute"] = func(u *Unit, st *State, x *ast.CallExpr, recv *Val, fn *types.Func) *Val {
 		u.trusted["model: xsync.Map is a linearizable map (Load/Store/Delete/LoadOrStore/LoadOrCompute/Range)"] = true
+		if se, ok := ast.Unparen(x.Fun).(*ast.SelectorExpr); ok {
+			u.atomicAccess(st, se.X, "mapop")
+		}
 		kt, vt, _ := xsyncMapTypes(recv.T)
 		k := u.convertForAssign(st, u.eval(st, x.Args[0]), kt)
 		ks := u.scalar(st, k)
@@ -683,9 +706,22 @@ func init() {
 		// the compute function: a literal whose body is a single `return value, cancel`
 		var nv *Val
 		cancel := "false"
-		if lit, isLit := ast.Unparen(x.Args[1]).(*ast.FuncLit); isLit && len(lit.Body.List) == 1 {
-			if rs, isRet := lit.Body.List[0].(*ast.ReturnStmt); isRet && len(rs.Results) == 2 {
+		if lit, isLit := ast.Unparen(x.Args[1]).(*ast.FuncLit); isLit && len(lit.Body.List) >= 1 {
+			// straight-line compute function: simple statements followed by `return value, cancel`
+			n := len(lit.Body.List)
+			simple := true
+			for _, s0 := range lit.Body.List[:n-1] {
+				switch s0.(type) {
+				case *ast.AssignStmt, *ast.DeclStmt, *ast.ExprStmt:
+				default:
+					simple = false
+				}
+			}
+			if rs, isRet := lit.Body.List[n-1].(*ast.ReturnStmt); simple && isRet && len(rs.Results) == 2 {
 				st.guard = append(st.guard, tNot(ok))
+				for _, s0 := range lit.Body.List[:n-1] {
+					u.exec(st, s0) // assignments / declarations do not fork
+				}
 				nv = u.eval(st, rs.Results[0])
 				cancel = u.eval(st, rs.Results[1]).S
 				st.guard = st.guard[:len(st.guard)-1]
